@@ -1,4 +1,5 @@
 """C07 — tracing calls never panic, block or deadlock the host."""
+import known as K
 import seqcheck
 
 
@@ -37,7 +38,8 @@ def extra(r):
            ("focus/queue-overflow-10245", queue_overflow(10245), ["no_panic"]),
            ("focus/full-ring", full_ring(), ["no_panic"]),
            ("focus/parked-backlog-20700", parked_backlog(), ["no_panic"]),
-           ("nomodel/tls-teardown", tls_probe(), ["no_panic"])]
+           ("nomodel/tls-teardown", tls_probe(), ["no_panic"]),
+           K.case("C07", "D20", ["no_panic"], with_model=False)]
     return out
 
 
@@ -47,7 +49,7 @@ def knobs(r, i):
 
 
 def run(v, tier, seed, replay):
-    cases, impl, model = seqcheck.run(v, tier, seed, replay, "C07", ["C07"], tree_oracles=["no_panic"], wild_oracles=["no_panic"], extra_cases=extra, knobs=knobs, wild_knobs=knobs,
+    cases, impl, model = seqcheck.run(v, tier, seed, replay, "C07", ["C07"], tree_oracles=["no_panic"], wild_oracles=["no_panic"], extra_cases=extra, knobs=knobs, wild_knobs=knobs, known=K.known("C07", "D20"),
                                       n_quick=(600, 2700), n_thorough=(20000, 90000),
                                       nontrivial=lambda lines, tr: True,
                                       assumptions=["blocking inside the allocator, the OS or parking_lot is outside the model; every call is run under an 8 s deadline",
